@@ -45,14 +45,7 @@ impl TextOwn {
         TextRef { words: &self.words, source: &self.source, chars: &self.chars, classes: &self.classes }
     }
 }
-// C18: gram generation: [w0,0,0], [w0,w1,0], then every window of three
-pub open spec fn windows(w: Seq<char>) -> Seq<Seq<char>> {
-    Seq::new(if w.len() >= 3 { (w.len() - 2) as nat } else { 0nat }, |i: int| seq![w[i], w[i + 1], w[i + 2]])
-}
-pub open spec fn heads(w: Seq<char>) -> Seq<Seq<char>> {
-    if w.len() == 0 { seq![] } else if w.len() == 1 { seq![seq![w[0], '\0', '\0']] } else { seq![seq![w[0], '\0', '\0'], seq![w[0], w[1], '\0']] }
-}
-pub open spec fn gram_list(w: Seq<char>) -> Seq<Seq<char>> { heads(w) + windows(w) }
+//@include ../common/gram_contracts.rs
 // @item rust/core/src/utils/trigrams.rs :: struct TrigramIter
 pub struct TrigramIter<'a> {
     pub word: &'a [char],
@@ -101,20 +94,6 @@ pub struct Record {
     pub title: TextOwn,
     pub rating: usize,
 }
-// posting lists: strictly increasing positions, all below `len` (C19: the counter vector has `len` slots; C18: no duplicates)
-pub open spec fn postings_wf(dict: Map<[char; 3], Vec<usize>>, len: int) -> bool {
-    forall|g: [char; 3]| dict.contains_key(g) ==> {
-        let l = (#[trigger] dict[g])@;
-        (forall|k: int| 0 <= k < l.len() ==> l[k] < len) && (forall|a: int, b: int| 0 <= a < b < l.len() ==> l[a] < l[b])
-    }
-}
-// the words of a text lie inside its character array; the total length fits (implied by Text::wf: words are disjoint)
-pub open spec fn sum_len(words: Seq<WordShape>, n: int) -> int decreases n { if n <= 0 { 0 } else { sum_len(words, n - 1) + (words[n - 1].slice.1 - words[n - 1].slice.0) } }
-pub open spec fn text_ok_s(words: Seq<WordShape>, nchars: int) -> bool {
-    (forall|k: int| 0 <= k < words.len() ==> (#[trigger] words[k]).slice.0 <= words[k].slice.1 && words[k].slice.1 <= nchars)
-    && sum_len(words, words.len() as int) <= usize::MAX
-}
-pub open spec fn text_ok(t: &TextRef) -> bool { text_ok_s(t.words@, t.chars@.len() as int) }
 proof fn lemma_sum_len_mono(words: Seq<WordShape>, a: int, b: int)
     requires 0 <= a <= b <= words.len(), forall|k: int| 0 <= k < words.len() ==> (#[trigger] words[k]).slice.0 <= words[k].slice.1
     ensures 0 <= sum_len(words, a) <= sum_len(words, b)
@@ -158,15 +137,9 @@ proof fn lemma_gdedup<T>(s: Seq<T>)
         }
     }
 }
-impl TrigramIndex {
-    pub open spec fn wf(&self) -> bool { self.len <= 0x4000_0000 && postings_wf(self.dict@, self.len as int) }
-}
-// R12: the tail of `prepare` (enumerate / filter / limit_sort_unstable / map / collect) is outlined; its contract is
-// the bounded-selection contract LS checked in lane K on the real LimitSortIter
-#[verifier::external_body]
-fn prepare_tail(counts: &mut Vec<usize>, size: usize) -> (r: Vec<usize>)
-    ensures final(counts)@ == old(counts)@,
-{ unimplemented!() }
+//@include ../common/limitsort.rs
+// the comparator closure of prepare's selection (by count, descending), replaced by name (R30); its text is pinned by hash
+pub struct CmpCounts;
 // @item rust/core/src/store/trigram_index.rs :: struct TrigramIndex
 pub struct TrigramIndex {
     pub len: usize,
@@ -184,6 +157,8 @@ impl TrigramIndex {
         // C19/C18/C10: the record is appended at position `len`; posting lists stay strictly increasing (this is the debug_assert!)
         requires old(self).wf(), record.ix == old(self).len, old(self).len < 0x4000_0000, text_ok_s(record.title.words@, record.title.chars@.len() as int),
         ensures final(self).wf(), final(self).len == old(self).len + 1, final(self).counts@ == old(self).counts@,
+            // C18: afterwards the posting lists hold what they held, plus the new position under exactly the grams of the new title
+            forall|g: [char; 3], j: int| #[trigger] posted(final(self).dict@, g, j) <==> (posted(old(self).dict@, g, j) || (j == old(self).len && has_gram(record.title.words@, record.title.chars@, g@))), // [C18 C05 C03 C04]
     {
         let Self { dict, len, .. } = self;
         let Record { ix, title, .. } = record;
@@ -196,8 +171,10 @@ impl TrigramIndex {
             invariant __end0 == grams@.len(), grams@.no_duplicates(), *len == n0 + 1, *ix == n0, n0 < 0x4000_0000,
                 postings_wf(dict@, n0 + 1),
                 forall|g: [char; 3]| dict@.contains_key(g) && !grams@.take(__i0 as int).contains(g) ==> (forall|k: int| 0 <= k < (#[trigger] dict@[g])@.len() ==> dict@[g]@[k] < n0),
+                forall|g: [char; 3], j: int| #[trigger] posted(dict@, g, j) <==> (posted(dict0, g, j) || (j == n0 && grams@.take(__i0 as int).contains(g))), // [C18 C05 C03 C04]
         {
             let gram = grams[__i0];
+            let ghost d1 = dict@;
             proof {
                 assert(!grams@.take(__i0 as int).contains(gram)) by {
                     if grams@.take(__i0 as int).contains(gram) { let t = choose|t: int| 0 <= t < __i0 && grams@.take(__i0 as int)[t] == gram; assert(grams@[t] == grams@[__i0 as int]); }
@@ -216,48 +193,202 @@ impl TrigramIndex {
             } else {
                 dict.insert(gram, vec![*ix]);
             }
+            proof {
+                let tk = grams@.take(__i0 as int); let tk1 = grams@.take(__i0 as int + 1);
+                assert forall|g: [char; 3], j: int| #[trigger] posted(dict@, g, j) <==> (posted(dict0, g, j) || (j == n0 && tk1.contains(g))) by {
+                    assert(tk1.contains(g) <==> (tk.contains(g) || g == gram)) by {
+                        if tk1.contains(g) { let t = choose|t: int| 0 <= t < tk1.len() && tk1[t] == g; if t < __i0 { assert(tk[t] == g); } }
+                        if tk.contains(g) { let t = choose|t: int| 0 <= t < tk.len() && tk[t] == g; assert(tk1[t] == g); }
+                    }
+                    assert(posted(d1, g, j) <==> (posted(dict0, g, j) || (j == n0 && tk.contains(g))));
+                    if g == gram {
+                        assert(!tk.contains(gram));
+                        if d1.contains_key(gram) {
+                            let l0 = d1[gram]@; let l1 = dict@[gram]@;
+                            assert(l1 == l0.push(n0 as usize));
+                            if posted(dict@, g, j) { let t = choose|t: int| 0 <= t < l1.len() && #[trigger] l1[t] == j; if t < l0.len() { assert(l0[t] == j); assert(posted(d1, g, j)); } else { assert(j == n0); } }
+                            if posted(d1, g, j) { let t = choose|t: int| 0 <= t < l0.len() && #[trigger] l0[t] == j; assert(l1[t] == j); assert(posted(dict@, g, j)); }
+                            if j == n0 { assert(l1[l0.len() as int] == j); assert(posted(dict@, g, j)); }
+                            assert(posted(dict@, g, j) <==> (posted(d1, g, j) || j == n0));
+                        } else {
+                            assert(!posted(d1, g, j));
+                            assert(dict@[gram]@ =~= seq![n0 as usize]);
+                            if j == n0 { assert(dict@[gram]@[0] == j); assert(posted(dict@, g, j)); }
+                            if posted(dict@, g, j) { let t = choose|t: int| 0 <= t < dict@[gram]@.len() && #[trigger] dict@[gram]@[t] == j; assert(t == 0); }
+                            assert(posted(dict@, g, j) <==> j == n0);
+                        }
+                    } else {
+                        assert(dict@.contains_key(g) == d1.contains_key(g));
+                        if d1.contains_key(g) { assert(dict@[g] == d1[g]); }
+                        assert(posted(dict@, g, j) == posted(d1, g, j));
+                    }
+                }
+            }
+        }
+        proof {
+            assert(grams@.take(grams@.len() as int) == grams@);
+            assert forall|g: [char; 3], j: int| #[trigger] posted(dict@, g, j) <==> (posted(dict0, g, j) || (j == n0 && has_gram(record.title.words@, record.title.chars@, g@))) by {
+                assert(grams@.contains(g) <==> has_gram(title.words@, title.chars@, g@));
+            }
         }
     }
     pub fn prepare(&mut self, query: &TextRef, size: usize) -> (ret: Vec<usize>)
-        requires old(self).wf(), text_ok(query),
+        requires old(self).wf(), text_ok(query), size <= 0x1000_0000,
         ensures final(self).wf(), final(self).len == old(self).len, final(self).dict@ == old(self).dict@,
+            // C05(a) / C06 / C03: what the candidate list is, in terms of the posting lists and the query's grams
+            prepare_post(old(self).dict@, old(self).len as int, query.words@, query.chars@, size as int, ret@), // [C05 C06 C03 C04 C18]
     {
         let Self { counts, dict, .. } = self;
         let ghost len0 = self.len as int;
         let ghost dict0 = dict@;
         if query.words.len() == 0 {
+            proof {
+                assert forall|j: int| 0 <= j < len0 && #[trigger] shares(dict0, query.words@, query.chars@, j) implies false by {}
+            }
             return Vec::new();
         }
         counts.clear();
         counts.resize(self.len, 0);
         let grams = Self::collect_grams(&query);
+        let ghost qw = query.words@;
+        let ghost qc = query.chars@;
         let __end0 = grams.len();
         for __i0 in 0..__end0
             invariant __end0 == grams@.len(), counts@.len() == len0, dict@ == dict0, postings_wf(dict0, len0),
                 forall|j: int| 0 <= j < counts@.len() ==> #[trigger] counts@[j] <= __i0, // [C01 C10 C18]
+                // the counter of a position is positive exactly when one of the grams seen so far lists it
+                forall|j: int| 0 <= j < len0 && #[trigger] counts@[j] > 0 ==> exists|t: int| 0 <= t < __i0 && #[trigger] posted(dict0, grams@[t], j), // [C05]
+                forall|t: int, j: int| 0 <= t < __i0 && 0 <= j < len0 && #[trigger] posted(dict0, grams@[t], j) ==> counts@[j] > 0, // [C03 C04]
         {
             let gram = &grams[__i0];
             if let Some(ixs) = dict.get(gram) {
                 let __end1 = ixs.len();
                 for __i1 in 0..__end1
                     invariant __end1 == ixs@.len(), __end0 == grams@.len(), __i0 < __end0, counts@.len() == len0, dict@ == dict0, postings_wf(dict0, len0),
-                        dict0.contains_key(*gram), ixs@ == dict0[*gram]@,
+                        dict0.contains_key(*gram), ixs@ == dict0[*gram]@, *gram == grams@[__i0 as int],
                         forall|j: int| 0 <= j < counts@.len() ==> #[trigger] counts@[j] <= __i0 + 1, // [C01 C10 C18]
                         forall|j: int| 0 <= j < counts@.len() && (forall|t: int| 0 <= t < __i1 ==> ixs@[t] != j) ==> #[trigger] counts@[j] <= __i0, // [C01 C10 C18]
+                        forall|j: int| 0 <= j < len0 && #[trigger] counts@[j] > 0 ==> (exists|t: int| 0 <= t < __i0 && #[trigger] posted(dict0, grams@[t], j)) || (exists|u: int| 0 <= u < __i1 && #[trigger] ixs@[u] == j), // [C05]
+                        forall|t: int, j: int| 0 <= t < __i0 && 0 <= j < len0 && #[trigger] posted(dict0, grams@[t], j) ==> counts@[j] > 0, // [C03 C04]
+                        forall|u: int| 0 <= u < __i1 ==> counts@[#[trigger] ixs@[u] as int] > 0, // [C03 C04]
                 {
                     let ix = ixs[__i1];
+                    let ghost c0 = counts@;
+                    proof { assert(ix < len0); }
                     unsafe {
                         *counts.get_unchecked_mut(ix) += 1;
+                    }
+                    proof {
+                        assert(counts@ == c0.update(ix as int, (c0[ix as int] + 1) as usize));
+                        assert forall|j: int| 0 <= j < len0 && #[trigger] counts@[j] > 0 implies (exists|t: int| 0 <= t < __i0 && #[trigger] posted(dict0, grams@[t], j)) || (exists|u: int| 0 <= u < __i1 + 1 && #[trigger] ixs@[u] == j) by {
+                            if j == ix { assert(ixs@[__i1 as int] == j); } else { assert(c0[j] > 0); }
+                        }
+                        assert forall|u: int| 0 <= u < __i1 + 1 implies counts@[#[trigger] ixs@[u] as int] > 0 by { if u < __i1 { assert(c0[ixs@[u] as int] > 0); } }
+                    }
+                }
+            }
+            proof {
+                // after the posting list of gram __i0 (or when there is none): the two counter facts hold for __i0 + 1
+                assert forall|j: int| 0 <= j < len0 && #[trigger] counts@[j] > 0 implies exists|t: int| 0 <= t < __i0 + 1 && #[trigger] posted(dict0, grams@[t], j) by {
+                    if !(exists|t: int| 0 <= t < __i0 && #[trigger] posted(dict0, grams@[t], j)) {
+                        assert(dict0.contains_key(*gram));
+                        let u = choose|u: int| 0 <= u < dict0[*gram]@.len() && #[trigger] dict0[*gram]@[u] == j;
+                        assert(posted(dict0, grams@[__i0 as int], j));
+                    }
+                }
+                assert forall|t: int, j: int| 0 <= t < __i0 + 1 && 0 <= j < len0 && #[trigger] posted(dict0, grams@[t], j) implies counts@[j] > 0 by {
+                    if t == __i0 {
+                        let u = choose|u: int| 0 <= u < dict0[*gram]@.len() && #[trigger] dict0[*gram]@[u] == j;
+                        assert(counts@[dict0[*gram]@[u] as int] > 0);
                     }
                 }
             }
         }
-        prepare_tail(counts, size)
+        let mut __items0: Vec<(usize, &usize)> = Vec::new();
+        let mut __p0 = 0;
+        while __p0 < counts.len()
+            invariant __p0 <= counts@.len(), counts@.len() == len0, len0 <= 0x4000_0000, __items0@.len() <= __p0,
+                forall|m: int| 0 <= m < __items0@.len() ==> (#[trigger] __items0@[m]).0 < __p0 && counts@[__items0@[m].0 as int] > 0,
+                forall|a: int, b: int| 0 <= a < b < __items0@.len() ==> (#[trigger] __items0@[a]).0 < (#[trigger] __items0@[b]).0,
+                forall|j: int| 0 <= j < __p0 && counts@[j] > 0 ==> exists|m: int| 0 <= m < __items0@.len() && (#[trigger] __items0@[m]).0 == j,
+            decreases counts@.len() - __p0,
+        {
+            let __ix = __p0;
+            __p0 += 1;
+            let __cur = (__ix, &counts[__ix]);
+            let __keep = {
+                let count = *__cur.1;
+                count > 0
+            };
+            proof {
+                // the invariant's last clause for the new __p0: position __ix is either skipped (count 0) or pushed below
+                assert(__keep == (counts@[__ix as int] > 0));
+            }
+            if !__keep {
+                continue;
+            }
+            let ghost it0 = __items0@;
+            __items0.push(__cur);
+            proof {
+                assert forall|j: int| 0 <= j < __p0 && counts@[j] > 0 implies exists|m: int| 0 <= m < __items0@.len() && (#[trigger] __items0@[m]).0 == j by {
+                    if j == __ix { assert(__items0@[it0.len() as int].0 == j); }
+                    else { let m = choose|m: int| 0 <= m < it0.len() && (#[trigger] it0[m]).0 == j; assert(__items0@[m].0 == j); }
+                }
+            }
+        }
+        let __sel0 = limit_sort_all(__items0, size * 10, CmpCounts);
+        let ghost items = __items0@;
+        let ghost idx = choose|idx: Seq<int>| selection(__sel0@, items, idx);
+        let mut __out0: Vec<usize> = Vec::new();
+        let mut __q0 = 0;
+        while __q0 < __sel0.len()
+            invariant __q0 <= __sel0@.len(), __out0@.len() == __q0,
+                forall|k: int| 0 <= k < __out0@.len() ==> #[trigger] __out0@[k] == __sel0@[k].0,
+            decreases __sel0@.len() - __q0,
+        {
+            let __jx = __q0;
+            __q0 += 1;
+            let ix = __sel0[__jx].0;
+            let __cur = ix;
+            __out0.push(__cur);
+        }
+        proof {
+            let r = __out0@;
+            assert forall|k: int| 0 <= k < r.len() implies #[trigger] r[k] < len0 && shares(dict0, qw, qc, r[k] as int) by {
+                assert(r[k] == items[idx[k]].0);
+                let j = r[k] as int;
+                assert(counts@[j] > 0);
+                let t = choose|t: int| 0 <= t < grams@.len() && #[trigger] posted(dict0, grams@[t], j);
+                assert(grams@.contains(grams@[t]));
+                assert(has_gram(qw, qc, grams@[t]@));
+            }
+            assert forall|a: int, b: int| 0 <= a < r.len() && 0 <= b < r.len() && a != b implies r[a] != r[b] by {
+                assert(idx[a] != idx[b]);
+                if idx[a] < idx[b] { assert(items[idx[a]].0 < items[idx[b]].0); } else { assert(items[idx[b]].0 < items[idx[a]].0); }
+            }
+            if len0 <= size * 10 {
+                lemma_selection_full(__sel0@, items, idx);
+                assert forall|j: int| 0 <= j < len0 && #[trigger] shares(dict0, qw, qc, j) implies r.contains(j as usize) by {
+                    let g = choose|g: [char; 3]| has_gram(qw, qc, g@) && #[trigger] posted(dict0, g, j);
+                    assert(grams@.contains(g));
+                    let t = choose|t: int| 0 <= t < grams@.len() && grams@[t] == g;
+                    assert(posted(dict0, grams@[t], j));
+                    assert(counts@[j] > 0);
+                    let m = choose|m: int| 0 <= m < items.len() && (#[trigger] items[m]).0 == j;
+                    assert(__sel0@.contains(items[m]));
+                    let k = choose|k: int| 0 <= k < __sel0@.len() && __sel0@[k] == items[m];
+                    assert(r[k] == j as usize);
+                }
+            }
+        }
+        __out0
     }
     fn collect_grams(text: &TextRef) -> (ret: Vec<[char; 3]>)
         requires text_ok(text),
         // sorted and de-duplicated: no gram occurs twice
         ensures ret@.no_duplicates(),
+            // C18: exactly the grams of the text's words
+            forall|g: [char; 3]| ret@.contains(g) <==> has_gram(text.words@, text.chars@, g@), // [C18 C05 C03 C04]
     {
         let mut __acc0: usize = 0;
         let __end0 = text.words.len();
@@ -273,28 +404,76 @@ impl TrigramIndex {
         let __end1 = text.words.len();
         for __i1 in 0..__end1
             invariant __end1 == text.words@.len(), text_ok(text),
+                forall|g: [char; 3]| grams@.contains(g) <==> has_gram_upto(text.words@, text.chars@, __i1 as int, g@),
         {
             let word = &text.words[__i1];
             let chars = &text.chars[word.slice.0..word.slice.1];
             let mut __it2 = TrigramIter::new(chars);
+            let ghost gl = gram_list(chars@);
+            let ghost mut done: int = 0;
+            proof { assert(chars@ == word_chars(text.words@, text.chars@, __i1 as int)); }
             loop
-                invariant __it2.wf(),
+                invariant __it2.wf(), 0 <= done <= gl.len(), __it2.remaining() == gl.skip(done), gl == gram_list(word_chars(text.words@, text.chars@, __i1 as int)), __i1 < text.words@.len(),
+                    forall|g: [char; 3]| grams@.contains(g) <==> (has_gram_upto(text.words@, text.chars@, __i1 as int, g@) || exists|j: int| 0 <= j < done && #[trigger] gl[j] == g@),
+                ensures done == gl.len(),
                 decreases __it2.remaining().len(),
             {
                 match __it2.next() {
                     Some(gram) => {
+                        let ghost g0 = grams@;
                         grams.push(gram);
+                        proof {
+                            assert(gram@ == gl[done]);
+                            assert forall|g: [char; 3]| grams@.contains(g) <==> (has_gram_upto(text.words@, text.chars@, __i1 as int, g@) || exists|j: int| 0 <= j < done + 1 && #[trigger] gl[j] == g@) by {
+                                if grams@.contains(g) {
+                                    let i = choose|i: int| 0 <= i < grams@.len() && grams@[i] == g;
+                                    if i < g0.len() { assert(g0[i] == g); assert(g0.contains(g)); } else { assert(gl[done] == g@); }
+                                }
+                                if g0.contains(g) { let i = choose|i: int| 0 <= i < g0.len() && g0[i] == g; assert(grams@[i] == g); }
+                                if exists|j: int| 0 <= j < done + 1 && #[trigger] gl[j] == g@ {
+                                    let j = choose|j: int| 0 <= j < done + 1 && #[trigger] gl[j] == g@;
+                                    if j == done { assert(gram@ == g@); assert(gram == g); assert(grams@[g0.len() as int] == g); } else { assert(g0.contains(g)); }
+                                }
+                            }
+                            done = done + 1;
+                        }
                     }
                     None => {
                         break;
                     }
                 }
             }
+            proof {
+                assert forall|g: [char; 3]| grams@.contains(g) <==> has_gram_upto(text.words@, text.chars@, __i1 as int + 1, g@) by {
+                    let w = text.words@; let c = text.chars@;
+                    if has_gram_upto(w, c, __i1 as int + 1, g@) {
+                        let (k, j) = choose|k: int, j: int| 0 <= k < __i1 + 1 && 0 <= j < gram_list(word_chars(w, c, k)).len() && #[trigger] gram_list(word_chars(w, c, k))[j] == g@;
+                        if k < __i1 { assert(has_gram_upto(w, c, __i1 as int, g@)); } else { assert(gl[j] == g@); }
+                    }
+                    if has_gram_upto(w, c, __i1 as int, g@) {
+                        let (k, j) = choose|k: int, j: int| 0 <= k < __i1 && 0 <= j < gram_list(word_chars(w, c, k)).len() && #[trigger] gram_list(word_chars(w, c, k))[j] == g@;
+                        assert(has_gram_upto(w, c, __i1 as int + 1, g@));
+                    }
+                    if exists|j: int| 0 <= j < done && #[trigger] gl[j] == g@ {
+                        let j = choose|j: int| 0 <= j < done && #[trigger] gl[j] == g@;
+                        assert(gram_list(word_chars(w, c, __i1 as int))[j] == g@);
+                        assert(has_gram_upto(w, c, __i1 as int + 1, g@));
+                    }
+                }
+            }
         }
+        let ghost collected = grams@;
         grams.sort_unstable();
         let ghost sorted = grams@;
         proof { lemma_gdedup::<[char; 3]>(sorted); }
         grams.dedup();
+        proof {
+            assert forall|g: [char; 3]| grams@.contains(g) <==> has_gram(text.words@, text.chars@, g@) by {
+                assert(gdedup(sorted).contains(g) <==> sorted.contains(g));
+                assert(sorted.contains(g) <==> collected.contains(g));
+                assert(collected.contains(g) <==> has_gram_upto(text.words@, text.chars@, text.words@.len() as int, g@));
+            }
+        }
         grams
     }
 }
